@@ -201,6 +201,8 @@ public:
           }
           dequeuedSignal.set();
           VERIF_POINT(11);
+          if (queue.size() != 0) // another worker may have slept through the wake-up this worker consumed
+            enqueuedSignal.set();
           if (job.proc)
           {
             job.proc(job.args);
